@@ -786,9 +786,165 @@ def r6_trailer_semantics(ctx):
 def r5_shared_tokenizer(ctx):
     """an envelope segment that the tokenizer hands over damaged (a line break glued to its id at a buffer boundary) is not recognised as a trailer: C01.R3 / R5 (shared)"""
     from . import c01
-    for fn in (c01.r3_tokenizer_exits, c01.r5_strip_set):
+    for fn in (c01.r3_tokenizer_exits, c01.r5_strip_set, c01.r11_reader_iteration):
         for o in fn(ctx):
             yield o
+
+def _ownership_runs(fn, attr, nonempty):
+    """every way `fn` can end, by a walk over its statements with object identities: [(returned, attr_obj, objects)].
+    Objects are numbered; each has 'content' ('orig' = the list as it was, 'empty', 'copy' = a copy of the original).
+    `nonempty` says whether the list held errors on entry (decides tests on the list)."""
+    class Undecided(Exception):
+        pass
+    results = []
+
+    def ev(e, st):
+        vars_, objs = st
+        p = path_of(e)
+        if p == attr:
+            return vars_['@attr']
+        if isinstance(e, ast.Name) and e.id in vars_:
+            return vars_[e.id]
+        if isinstance(e, (ast.List, ast.Tuple)) and not e.elts:
+            objs.append('empty')
+            return len(objs) - 1
+        if isinstance(e, ast.Call) and isinstance(e.func, ast.Name) and e.func.id in ('list', 'tuple') and len(e.args) <= 1 and not e.keywords:
+            if not e.args:
+                objs.append('empty')
+                return len(objs) - 1
+            src = ev(e.args[0], st)
+            objs.append({'orig': 'copy'}.get(objs[src], objs[src]))
+            return len(objs) - 1
+        if isinstance(e, ast.Subscript) and isinstance(e.slice, ast.Slice) and e.slice.lower is None and e.slice.upper is None and e.slice.step is None:
+            src = ev(e.value, st)
+            objs.append({'orig': 'copy'}.get(objs[src], objs[src]))
+            return len(objs) - 1
+        if isinstance(e, ast.Call) and isinstance(e.func, ast.Attribute) and e.func.attr == 'copy' and not e.args:
+            src = ev(e.func.value, st)
+            objs.append({'orig': 'copy'}.get(objs[src], objs[src]))
+            return len(objs) - 1
+        raise Undecided(norm(e))
+
+    def truth(e, st):
+        vars_, objs = st
+        if isinstance(e, ast.UnaryOp) and isinstance(e.op, ast.Not):
+            t = truth(e.operand, st)
+            return None if t is None else not t
+        if isinstance(e, ast.Call) and isinstance(e.func, ast.Name) and e.func.id == 'len' and len(e.args) == 1:
+            return truth(e.args[0], st)
+        if isinstance(e, ast.Compare) and len(e.ops) == 1 and isinstance(e.left, ast.Call) and isinstance(e.left.func, ast.Name) and e.left.func.id == 'len' \
+                and A.const(e.comparators[0]) == 0 and isinstance(e.ops[0], (ast.Gt, ast.NotEq, ast.Eq)):
+            t = truth(e.left.args[0], st)
+            return None if t is None else (t if not isinstance(e.ops[0], ast.Eq) else not t)
+        try:
+            o = ev(e, (dict(vars_), list(objs)))
+        except Undecided:
+            return None
+        c = objs[o] if o < len(objs) else 'empty'
+        return (nonempty if c in ('orig', 'copy') else False)
+
+    def run(stmts, st, cont):
+        if not stmts:
+            return cont(st)
+        s0, rest = stmts[0], stmts[1:]
+        vars_, objs = st
+        if isinstance(s0, ast.Expr) and isinstance(s0.value, ast.Constant):
+            return run(rest, st, cont)
+        if isinstance(s0, ast.Pass):
+            return run(rest, st, cont)
+        if isinstance(s0, ast.Return):
+            r = ev(s0.value, st) if s0.value is not None else None
+            results.append((r, vars_['@attr'], list(objs)))
+            return
+        if isinstance(s0, ast.Assign) and len(s0.targets) == 1:
+            t = s0.targets[0]
+            if isinstance(t, (ast.Tuple, ast.List)) and isinstance(s0.value, (ast.Tuple, ast.List)) and len(t.elts) == len(s0.value.elts):
+                vals = [ev(v, st) for v in s0.value.elts]
+                pairs = list(zip(t.elts, vals))
+            else:
+                pairs = [(t, ev(s0.value, st))]
+            vars_ = dict(vars_)
+            for tg, v in pairs:
+                if path_of(tg) == attr:
+                    vars_['@attr'] = v
+                elif isinstance(tg, ast.Name):
+                    vars_[tg.id] = v
+                else:
+                    raise Undecided(norm(s0))
+            return run(rest, (vars_, objs), cont)
+        if isinstance(s0, ast.Expr) and isinstance(s0.value, ast.Call) and isinstance(s0.value.func, ast.Attribute) and s0.value.func.attr == 'clear' and not s0.value.args:
+            o = ev(s0.value.func.value, st)
+            objs = list(objs)
+            objs[o] = 'empty'
+            return run(rest, (vars_, objs), cont)
+        if isinstance(s0, ast.Delete) and len(s0.targets) == 1 and isinstance(s0.targets[0], ast.Subscript) and isinstance(s0.targets[0].slice, ast.Slice) \
+                and s0.targets[0].slice.lower is None and s0.targets[0].slice.upper is None:
+            o = ev(s0.targets[0].value, st)
+            objs = list(objs)
+            objs[o] = 'empty'
+            return run(rest, (vars_, objs), cont)
+        if isinstance(s0, ast.If):
+            t = truth(s0.test, st)
+            for branch, take in ((s0.body, True), (s0.orelse, False)):
+                if t is None or t == take:
+                    run(list(branch) + rest, (dict(vars_), list(objs)), cont)
+            return
+        raise Undecided(norm(s0))
+
+    def end(st):
+        results.append((None, st[0]['@attr'], list(st[1])))
+    try:
+        run(list(fn.body), ({'@attr': 0}, ['orig']), end)
+    except Undecided as e:
+        raise AnalysisError('%s: ownership of %s cannot be followed through `%s`' % (fn.name, attr, e))
+    return results
+
+
+def r11_error_transport(ctx):
+    """a discrepancy the recount finds reaches the caller exactly once: (a) each of the four recorders appends its entry -
+    level tag, code, message, value, line - to the pending list on every path, whatever was recorded before (an entry
+    dropped because it looks like the previous one hides a real second discrepancy); (b) pop_errors hands the pending
+    list over: it returns the errors recorded so far and leaves the reader with a new, empty list that is not the object
+    it returned - a caller that keeps the list it got must not see later errors arrive in it, nor the reader report them
+    again.  (a) by constant propagation over both outcomes of every test, (b) by following object identities."""
+    from ..absint import explore, helper_oracles
+    hf = helper_oracles(ctx, 'x12file', all_methods_of='X12Base')
+    for tag, nm, extra in (('isa', '_isa_error', ()), ('gs', '_gs_error', ()), ('st', '_st_error', ()), ('seg', '_seg_error', ('VAL', 7))):
+        fn = ctx.func('x12file', 'X12Base.' + nm)
+        g = ctx.cfg(fn)
+        prior = ((tag, 'C', 'S') + (extra if extra else (None, None)),)
+        fin = []
+
+        def on_node(nd, e, g=g):
+            if nd is g.exit:
+                fin.append(e.get('self.err_list'))
+        env = {'self.err_list': prior, 'err_cde': 'C', 'err_str': 'S'}
+        if extra:
+            env['err_value'], env['src_line'] = extra
+        explore(g, env, funcs=hf, on_node=on_node)
+        want = prior + ((tag, 'C', 'S') + (extra if extra else (None, None)),)
+        bad = [f for f in fin if f != want]
+        if not fin:
+            raise AnalysisError('X12Base.%s: no outcome' % nm)
+        yield Ob('x12file:X12Base.%s appends its entry to the pending errors on every path' % nm, not bad, ctx.floc(fn),
+                 '' if not bad else 'after the same %s error was recorded before, the pending list can be %s, expected %s: a discrepancy is not reported%s'
+                 % (tag, 'left as it was' if bad[0] == prior else (list(bad[0]) if isinstance(bad[0], tuple) else 'undetermined'), list(want),
+                    '' if bad[0] is not None else ' (the list is handed to code the analysis cannot follow)'))
+    fn = ctx.func('x12file', 'X12Base.pop_errors')
+    msg = ''
+    for nonempty in (False, True):
+        for ret, cur, objs in _ownership_runs(fn, 'self.err_list', nonempty):
+            what = 'with %s pending' % ('errors' if nonempty else 'nothing')
+            if ret is None:
+                msg = msg or '%s: nothing is returned' % what
+            elif objs[ret] not in ('orig', 'copy'):
+                msg = msg or '%s: the list returned does not hold the errors recorded so far' % what
+            elif cur == ret:
+                msg = msg or ('%s: the list returned is still the reader\'s own pending list - errors recorded later arrive in the list '
+                              'the caller already holds, and are handed out again by the next pop_errors' % what)
+            elif objs[cur] != 'empty':
+                msg = msg or '%s: the reader keeps the errors it handed out: they are reported again' % what
+    yield Ob('x12file:X12Base.pop_errors hands the pending list over and starts a new one', not msg, ctx.floc(fn), msg)
 
 
 RULES = [
@@ -801,5 +957,6 @@ RULES = [
     Rule('C04.R10', 'context reader: popped reader errors always reach the yielded node (must-pass-through)', r10_popped_errors_reach_a_node, floor=1),
     Rule('C04.R6', 'trailer checks decided by constant propagation: stack shape x control number x declared count', r6_trailer_semantics, floor=2),
     Rule('C04.R5', 'shared with C01.R3/R5: no segment is damaged or lost at a buffer boundary', r5_shared_tokenizer, floor=6),
+    Rule('C04.R11', 'recorders append on every path; pop_errors returns the pending errors and leaves a new, distinct, empty list', r11_error_transport, floor=5),
     Rule('C04.R4', 'pending reader errors are only removed by pop_errors, never per segment', r4_pending_errors_kept, floor=2),
 ]
